@@ -620,6 +620,8 @@ def canon(x, memo):
             r = a.args[1]
         elif name == "log" and isinstance(a, S.Sym) and a.op == "fn" and a.args[0] == "sqrt":
             r = S.mul(Fraction(1, 2), S.fn("log", a.args[1]))
+        elif name == "abs" and isinstance(a, S.Sym) and a.op == "fn" and a.args[0] == "nonneg":
+            r = a  # |x| = x for a value whose contract says x >= 0
         else:
             r = S.fn(name, *args)
     elif op == "clamp":
@@ -987,6 +989,11 @@ class Conv:
         if name == "atan2":
             i = self._opaque_var("A", x, [self.f(a), self.f(x.args[2])])
             return Frac(Fraction(1), self.ring.gen(i))
+        if name == "nonneg":
+            # value of an environment stub whose documented contract is x >= 0 (listed as an assumption unless implied)
+            if not isinstance(a, Fraction):
+                self.assume_nonneg.setdefault(a, "stub contract")
+            return self.f(a)
         if name == "abs":
             inner = self.f(a)
             if self.oracle is not None and self.oracle.implied_nonneg(inner):
